@@ -58,12 +58,13 @@ func (t *mixedTable) insert(k, v Value) {
 func (t *mixedTable) reset(k, v Value) (wasSet bool) {
 	i, ok := ToIntNoString(k)
 	if ok {
-		ok, wasSet = t.array.resetValue(i, v)
-		if ok {
+		var inArray bool
+		inArray, wasSet = t.array.resetValue(i, v)
+		if inArray {
 			return
 		}
-	}
-	if ok {
+		// Not in the array part: look up the normalised (integer) key in the
+		// hash part, so that e.g. 100.0 finds the entry stored under 100.
 		k = IntValue(i)
 	}
 	return t.hashTable.reset(k, v)
